@@ -226,12 +226,36 @@ class Built(object):
                                                    for c in self.children)
 
     def region_str(self):
-        """Region tags of all nodes (root-cause key material)."""
+        """Region tags of all nodes that can matter for a root cause (the
+        ones the known-finding predicates look at); the full tags are
+        counted as strata."""
         tags = []
         for n in self.nodes():
             for k in sorted(n.region):
-                tags.append('{}={}'.format(k, n.region[k]))
+                v = str(n.region[k])
+                if suspect_tag(k, v):
+                    t = '{}={}'.format(k, v)
+                    if t not in tags:
+                        tags.append(t)
         return ','.join(tags)
+
+
+def suspect_tag(k, v):
+    if k == 'huber':
+        return 'array' in v or v.startswith('vec')
+    if k == 'quad':
+        return 'opvec' in v or 'nonsym' in v
+    if k == 'qop':
+        return 'matrix-warray' in v or 'matrix-wdiscr-bdry' in v
+    if k == 'group':
+        return '-cconst' in v or '-carray' in v or v.endswith('-barray')
+    if k == 'nuc':
+        return v == 'wide'
+    if k == 'matop':
+        return 'same=0' in v
+    if k == 'gradop':
+        return v == 'bdry=1'
+    return True
 
 
 def _vec(space, v):
